@@ -1,3 +1,18 @@
 package main
 
-func registerOther() {}
+import (
+	"verif/harness/seats"
+	"verif/harness/sim"
+)
+
+func regS(id, title string, quick int64) {
+	props[id] = &propSpec{World: func() sim.World { return seats.World{} }, WorldName: "S", QuickRuns: quick, Title: title, Shards: true,
+		Rule: "one case = one simulated history of a seat manager (table size, operation mix, junk arguments, stalled seats, bursts, quiet windows; in concurrent mode one real goroutine per operation released one at a time at the yield hooks by a seeded scheduler); non-trivial = at least one Next() after a membership change (interleaved mode) or at least one burst of operations in flight at once (concurrent mode); distinct = distinct (operation, outcome, playable seats before, seated players, target occupied, dealer present) transitions, resp. distinct (yield label, parked, unfinished) scheduler states, observed in non-trivial runs",
+		Assume: []string{"math/rand is seeded per run (go1.23: rand.Seed effective) and one run executes at a time per process", "GetPlayableSeats is only called once a dealer exists (it dereferences the dealer)", "player identities are unique per join attempt"}}
+}
+
+func registerOther() {
+	regS("C08", "dealer and blinds land on the right seats", 30000)
+	regS("C17", "the button moves correctly", 30000)
+	regS("C18", "no double booking, no crash", 12000)
+}
